@@ -29,7 +29,7 @@ SHRINK_FIELDS = ("ops",)
 RULE = ("'api' cases: one case = all sequences of length <= depth that start with a given 2-op prefix over the alphabet {A anon "
         "send, P plain send, R matching circuit becomes ready, W non-matching circuit ready (wrong hop count or exit without "
         "IPv8 flag), C circuit closing, X circuit removed, D tunnel community detached, T attached, N anonymity off, Y on, Q "
-        "burst of 101 anon sends}; depth 5 in quick, 7 in thorough (complete). 'net' cases: seeded sequences of <= 30 operations "
+        "burst of 101 anon sends, O a second TunnelEndpoint of the process toggles the same prefix and sends}; depth 5 in quick, 7 in thorough (complete). 'net' cases: seeded sequences of <= 30 operations "
         "on a real node with real circuits incl. hop crashes. Non-trivial = a sequence with an anonymized send while no usable "
         "circuit exists, or after a circuit closed, or with a non-empty queue; distinct by operation string.")
 COMPONENTS = {"real": ["TunnelEndpoint (send, set_anonymity, set_tunnel_community, send_queue, notify_listeners)",
@@ -39,9 +39,10 @@ COMPONENTS = {"real": ["TunnelEndpoint (send, set_anonymity, set_tunnel_communit
                        "net: UDP/IP (SimNet), wall clock"]}
 ASSUMPTIONS = ["while anonymity is switched off for a prefix its packets may use the raw socket (that is what the switch means)"]
 REACH = ["anon_send_no_circuit_queued", "anon_send_over_ready_circuit", "queue_overflow", "detached_drop", "plain_raw_ok",
-         "circuit_closing_with_queue", "net_anon_delivered_via_exit", "net_hop_crashed", "wrong_circuit_not_used"]
+         "circuit_closing_with_queue", "net_anon_delivered_via_exit", "net_hop_crashed", "wrong_circuit_not_used",
+         "second_endpoint_same_prefix", "net_blind_exit_circuit_ready"]
 
-ALPHA = "APRWCXDTNYQ"
+ALPHA = "APRWCXDTNYQO"
 ANON_PREFIX = b"\x00\x02" + b"\xa1" * 20
 PLAIN_PREFIX = b"\x00\x02" + b"\xb2" * 20
 EXIT_IPV8 = 4
@@ -49,7 +50,7 @@ EXIT_IPV8 = 4
 
 def cases(tier: str, base_seed: int):  # noqa: ANN201
     depth = 5 if tier == "quick" else 7
-    alpha = ALPHA if tier == "thorough" else "APRWCXDNQ"
+    alpha = ALPHA if tier == "thorough" else "APRWCXDNQO"
     n = 0
     net_i = 0
     prefixes = ["".join(p) for p in itertools.product(alpha, repeat=2)]
@@ -68,8 +69,8 @@ def _net_case(seed: int) -> dict:
     ops = []
     for _ in range(rng.choice([6, 12, 30])):
         ops.append(rng.choices(["anon", "plain", "build", "wait", "remove", "crash_hop", "detach", "attach", "anon_off", "anon_on",
-                                "burst", "hops2", "hops1"],
-                               [30, 12, 8, 14, 8, 4, 4, 5, 3, 4, 3, 2, 3])[0])
+                                "burst", "hops2", "hops1", "build_blind", "other_off", "other_send"],
+                               [30, 12, 8, 14, 8, 4, 4, 5, 3, 4, 3, 2, 3, 5, 3, 5])[0])
     return {"scenario": "net", "seed": seed, "ops": ops,
             "knobs": {"lat_jit": rng.choice([0.0, 0.05]), "loss": rng.choice([0.0, 0.0, 0.1]), "timer_jitter": rng.choice([0.0, 0.001])}}
 
@@ -134,9 +135,9 @@ def run_api(c: Case, case: dict) -> dict:  # noqa: C901, PLR0915
             self.circuits[self.nid] = circ
             if ready:
                 for i in range(goal_hops):
-                    circ.add_hop(Hop(peer, flags=list(flags) if i == goal_hops - 1 else [1]))
+                    circ.add_hop(Hop(peer, flags=(None if flags is None else list(flags)) if i == goal_hops - 1 else [1]))
             else:
-                circ.pending_flags = list(flags)
+                circ.pending_flags = list(flags or [])
             return circ
 
         def send_data(self, target, circuit_id, dest, src, data) -> None:  # noqa: ANN001
@@ -159,6 +160,12 @@ def run_api(c: Case, case: dict) -> dict:  # noqa: C901, PLR0915
         n_anon = 0
         plain_expected = []
         k = 0
+        # a second TunnelEndpoint of the same process (another pseudonym / node) carrying an overlay with the same prefix
+        raw2 = Raw()
+        ep2 = TunnelEndpoint(raw2)
+        tc2 = TC()
+        ep2.set_tunnel_community(tc2, 1)
+        other_on = None
 
         def anon_send() -> None:
             nonlocal n_anon
@@ -207,11 +214,28 @@ def run_api(c: Case, case: dict) -> dict:  # noqa: C901, PLR0915
                 else:
                     tc.new(hops, [1, EXIT_IPV8], ready=True)
             elif ch == "W":
-                if k % 2:
+                if k % 3 == 1:
                     tc.new(hops + 1, [1, EXIT_IPV8], ready=True)      # wrong length
-                else:
+                elif k % 3 == 2:
                     tc.new(hops, [1, 2], ready=True)                  # exit without the IPv8 flag
+                else:
+                    tc.new(hops, None, ready=True)                    # exit whose flags the sender never learnt
                 world.probe("wrong_circuit_not_used")
+            elif ch == "O":
+                # the other endpoint switches the same prefix off (first) / on (then) and sends one packet of its own
+                other_on = False if other_on is None else not other_on
+                ep2.set_anonymity(ANON_PREFIX, other_on)
+                r2, s2, q2 = len(raw2.sent), len(tc2.sent), len(ep2.send_queue)
+                pkt = ANON_PREFIX + b"\x02" + k.to_bytes(2, "big")
+                ep2.send(("9.9.9.9", 9), pkt)
+                raw_now = len(raw2.sent) > r2
+                if other_on and raw_now:
+                    c.violate("never_raw", "anonymized_packet_sent_on_raw_socket", f"second endpoint, after '{seq[:k]}'")
+                if not other_on and not raw_now:
+                    c.violate("plain_unaffected", "plain_overlay_traffic_altered",
+                              f"second endpoint has anonymity off for the prefix but its packet did not use its raw socket "
+                              f"(tunnelled {len(tc2.sent) - s2}, queued {len(ep2.send_queue) - q2}) after '{seq[:k]}'")
+                world.probe("second_endpoint_same_prefix")
             elif ch == "C":
                 for x in tc.circuits.values():
                     if x.state == "READY":
@@ -278,7 +302,10 @@ def run_net(c: Case, case: dict) -> dict:  # noqa: C901, PLR0915
     class PlainOverlay(Community):
         community_id = unhexlify("b2" * 20)
 
-    tw = TunnelWorld(c, n=6, exits=(4, 5), endpoint_kinds={0: "tunnel"})
+    # node 6 is a BitTorrent-only exit; node 1 is a second node of the process with its own TunnelEndpoint that runs the same
+    # overlay id without anonymity
+    tw = TunnelWorld(c, n=7, exits=(4, 5), endpoint_kinds={0: "tunnel", 1: "tunnel"},
+                     flags={6: {PEER_FLAG_RELAY, PEER_FLAG_EXIT_BT}})
     st: dict = {"anon_on": True, "hops": 1, "violated": False}
     sends: list = []
 
@@ -310,8 +337,16 @@ def run_net(c: Case, case: dict) -> dict:  # noqa: C901, PLR0915
         target.raw_endpoint.add_prefix_listener(t_anon, t_anon.get_prefix())
         target.raw_endpoint.remove_listener(t_plain)
         target.raw_endpoint.add_prefix_listener(t_plain, t_plain.get_prefix())
+        other = tw.nodes[1]
+        o_anon = other.add(AnonOverlay)          # same overlay id, did not ask for anonymity
+        other_sent: list = []
         await tw.introduce()
         aprefix = anon.get_prefix()
+        bt_exit = tw.nodes[6]
+
+        def real_flags(circ):  # noqa: ANN001, ANN202
+            node = tw.node_of_key(circ.hops[-1].public_key_bin) if circ.hops else None
+            return set() if node is None else set(node.ov.settings.peer_flags)
 
         inner_send_data = tc.send_data
 
@@ -319,18 +354,19 @@ def run_net(c: Case, case: dict) -> dict:  # noqa: C901, PLR0915
             if data[:22] == aprefix:
                 circ = tc.circuits.get(circuit_id)
                 ok = circ is not None and circ.state == "READY" and circ.goal_hops == me.endpoint.hops \
-                    and PEER_FLAG_EXIT_IPV8 in circ.exit_flags
+                    and PEER_FLAG_EXIT_IPV8 in circ.exit_flags and PEER_FLAG_EXIT_IPV8 in real_flags(circ)
                 if not ok:
                     c.violate("right_circuit", "tunnelled_over_unsuitable_circuit",
                               f"anonymized packet handed to circuit {circuit_id}: "
-                              f"{None if circ is None else (circ.state, circ.goal_hops, circ.exit_flags)}, wanted READY/{me.endpoint.hops}/IPv8")
+                              f"{None if circ is None else (circ.state, circ.goal_hops, circ.exit_flags, sorted(real_flags(circ)))}, "
+                              f"wanted READY/{me.endpoint.hops}/IPv8")
                 else:
                     world.probe("anon_send_over_ready_circuit")
             return inner_send_data(target_addr, circuit_id, dest, src, data)
         tc.send_data = send_data
 
         def on_send(pkt, fate) -> None:  # noqa: ANN001
-            if pkt.src_node == me.name and pkt.data[:22] == aprefix and st["anon_on"]:
+            if pkt.src_node == me.name and pkt.data[:22] == aprefix and st["anon_on"] and pkt.src[0] == me.ip:
                 c.violate("never_raw", "anonymized_packet_sent_on_raw_socket",
                           f"datagram with the anonymized overlay's prefix left {pkt.src} towards {pkt.dst} (ops so far: {sends[-6:]})")
             if len(me.endpoint.send_queue) > 100:
@@ -359,6 +395,25 @@ def run_net(c: Case, case: dict) -> dict:  # noqa: C901, PLR0915
                 me.call(plain.endpoint.send, target.address, pkt)
             elif op == "build":
                 me.call(tc.create_circuit, me.endpoint.hops, exit_flags=[PEER_FLAG_EXIT_IPV8])
+            elif op == "build_blind":
+                # a circuit of the right length whose exit's flags this node never learnt (required_exit outside the candidates),
+                # ending in the BitTorrent-only exit
+                from ipv8.peer import Peer
+                blind = Peer(bt_exit.ov.my_peer.public_key.key_to_bin(), bt_exit.address)
+                tc.candidates.pop(blind, None)
+                if me.endpoint.hops == 1 or tc.get_candidates(PEER_FLAG_RELAY):
+                    circ = me.call(tc.create_circuit, me.endpoint.hops, required_exit=blind)
+                    if circ is not None:
+                        await asyncio.sleep(1.0)
+                        if circ.state == "READY" and not circ.exit_flags:
+                            world.probe("net_blind_exit_circuit_ready")
+            elif op == "other_off":
+                other.endpoint.set_anonymity(aprefix, False)
+            elif op == "other_send":
+                pkt = other.call(o_anon.create_introduction_request, target.address)
+                other_sent.append(pkt)
+                other.call(o_anon.endpoint.send, target.address, pkt)
+                world.probe("second_endpoint_same_prefix")
             elif op == "wait":
                 await asyncio.sleep(rng.choice([0.3, 2.0, 8.0]))
             elif op == "remove":
@@ -392,6 +447,11 @@ def run_net(c: Case, case: dict) -> dict:  # noqa: C901, PLR0915
             await asyncio.sleep(0.05)
         await asyncio.sleep(3.0)
         # deliveries: anonymized packets must have arrived from an exit, never from my own address
+        from_other = [d for src, d in seen_anon if src[0] == other.ip]
+        if not case["knobs"].get("loss") and sorted(from_other) != sorted(other_sent):
+            c.violate("plain_unaffected", "plain_overlay_traffic_altered",
+                      f"second node (same overlay id, anonymity not requested) sent {len(other_sent)} packets from its own "
+                      f"socket, target saw {len(from_other)} from that address")
         for src, _data in seen_anon:
             if src[0] == me.ip and "anon_off" not in case["ops"]:
                 c.violate("never_raw", "anonymized_packet_arrived_from_own_address", f"target saw {src}")
